@@ -13,6 +13,7 @@ import Driver.C12
 import Driver.C11
 import Driver.C10
 import Driver.C09
+import Driver.C04
 
 def dispatch (line : String) : String :=
   let toks := (line.trimAscii.toString.splitOn " ").filter (· ≠ "")
@@ -34,6 +35,7 @@ def dispatch (line : String) : String :=
     else if op.startsWith "h." then Driver.Header.handle toks
     else if op.startsWith "c15." then Driver.C15.handle toks
     else if op.startsWith "c16." then Driver.C16.handle toks
+    else if op.startsWith "c04." then Driver.C04.handle toks
     else "bad-op"
 
 partial def loop (h : IO.FS.Stream) (out : IO.FS.Stream) : IO Unit := do
